@@ -348,6 +348,14 @@ var Schemas = []Schema{
 	{"expr-ctx-composite-two-dots", func(g *G) *Change {
 		return &Change{Kind: "stmts", Meta: mv("v", "identifier", "x", "expression"), Lines: lines(" «v» := Tgt{‹1:elts›, «x», ‹2:elts›}", "-use(«v»)", "+use(«v», «x»)")}
 	}},
+	// a metavariable bound by the first section and used again behind two elisions (a decoy first statement
+	// binds it differently; see InstancePlants)
+	{"stmt-two-dots-reused-metavar", func(g *G) *Change {
+		return &Change{Kind: "stmts", Meta: mv("v", "identifier", "x", "expression"), Lines: lines(" «v» := tgtAcquire(«x»)", " ‹1:stmts›", " tgtLock()", " ‹2:stmts›", "-tgtRelease(«v»)", "+tgtReleaseAll(«v», «x»)")}
+	}},
+	{"stmt-dots-reused-metavar-in-args", func(g *G) *Change {
+		return &Change{Kind: "stmts", Meta: mv("x", "expression"), Lines: lines(" tgtOpen(«x»)", " ‹1:stmts›", "-tgtUse(‹2:args›, «x», ‹3:args›)", "+tgtUsed(«x»)")}
+	}},
 	// an elision on a context line whose run a later '+'-only elision reproduces a second time
 	{"stmt-ctx-dots-reused-on-plus", func(g *G) *Change {
 		return &Change{Kind: "stmts", Meta: mv("v", "identifier", "x", "expression"), Lines: lines(" «v» := tgtDo(«x», ‹1:args›)", "+audit(«x», ‹1:args›)")}
@@ -495,6 +503,14 @@ func (g *G) InstancePlants(c *Change, n, m int) ([]Plant, []string) {
 		}
 		for try := 0; try < 5; try++ {
 			t, _ := c.Instance(g)
+			if c.Kind == "stmts" && c.HasDots() && g.R.Intn(3) == 0 {
+				// a decoy in front, in the same block: the first statement of another instance (it binds the
+				// metavariables differently and the rest of the pattern does not follow it)
+				t2, _ := c.Instance(g)
+				if l0 := strings.SplitN(t2, "\n", 2)[0]; PlantParses("stmts", l0) && PlantParses("stmts", l0+"\n"+t) && !strings.HasSuffix(strings.TrimSpace(l0), "{") {
+					t = l0 + "\n" + t
+				}
+			}
 			if PlantParses(c.Kind, t) {
 				plants = append(plants, Plant{Kind: c.Kind, Text: t})
 				break
